@@ -99,10 +99,10 @@ Theorem T05_single_recipient : forall cfg rules t attempts failures,
   cfg_wf cfg ->
   match spec_route cfg rules t with
   | OFail => exchange cfg rules t attempts failures = []
-  | OSent a tls w =>
+  | OSent a tls w nm =>
       (forall e, In e (exchange cfg rules t attempts failures) -> event_addr e = a) /\
       (exists n, (1 <= n)%nat /\
-         (exchange cfg rules t attempts failures = repeat (EvDial a) n ++ [EvUse a tls w] \/
+         (exchange cfg rules t attempts failures = repeat (EvDial a) n ++ [EvUse a tls w nm] \/
           exchange cfg rules t attempts failures = repeat (EvDial a) n))
   end.
 Proof. exact (single_recipient (proj1 ob_connect_switch) (proj2 ob_tls_scheme) ob_transport_socks
@@ -128,10 +128,10 @@ Print Assumptions T05_every_pac_type_accounted.
    "direct", connect-to list ex_rules) meeting the hypotheses; the interesting outcomes are computed. *)
 Example T05_example :
   cfg_wf ex_cfg /\
-  route ex_cfg ex_rules (tgt 0 (b "http") (b "origin.test")) = OSent (b "10.0.0.9:8443") true WAbs /\
-  route ex_cfg ex_rules (tgt 1 [] (b "origin.test:80")) = OSent (b "10.0.0.9:8443") true WConnect /\
-  route ex_cfg ex_rules (tgt 0 (b "http") (b "intra.test")) = OSent (b "sink.test:80") false WDirect /\
-  route ex_cfg ex_rules (tgt 1 [] (b "localhost:443")) = OSent (b "sink.test:443") false WDirect /\
+  route ex_cfg ex_rules (tgt 0 (b "http") (b "origin.test")) = OSent (b "10.0.0.9:8443") true WAbs (b "origin.test") /\
+  route ex_cfg ex_rules (tgt 1 [] (b "origin.test:80")) = OSent (b "10.0.0.9:8443") true WConnect (b "origin.test:80") /\
+  route ex_cfg ex_rules (tgt 0 (b "http") (b "intra.test")) = OSent (b "sink.test:80") false WDirect (b "intra.test") /\
+  route ex_cfg ex_rules (tgt 1 [] (b "localhost:443")) = OSent (b "sink.test:443") false WDirect [] /\
   route ex_cfg ex_rules (tgt 0 (b "http") (b "bad.test")) = OFail /\
   route ex_cfg ex_rules (tgt 1 [] (b "bad.test:80")) = OFail.
 Proof. exact (conj (cfg_wf_no_static ex_cfg eq_refl eq_refl)
@@ -140,6 +140,6 @@ Proof. exact (conj (cfg_wf_no_static ex_cfg eq_refl eq_refl)
 (* the hypothesis cfg_wf is met by every static upstream config.go accepts *)
 Example T05_example_static :
   cfg_wf ex_cfg_static /\
-  route ex_cfg_static [] (tgt 1 [] (b "origin.test:443")) = OSent (b "pa.test:1080") false WSocks.
+  route ex_cfg_static [] (tgt 1 [] (b "origin.test:443")) = OSent (b "pa.test:1080") false WSocks (b "origin.test:443").
 Proof. exact (conj (cfg_wf_static ex_cfg_static (b "socks5") (b "pa.test") (b "1080") eq_refl eq_refl
                       socks5_supported eq_refl eq_refl eq_refl) eq_refl). Qed.
